@@ -594,3 +594,85 @@ def r3i_every_analysis_parses(ctx):
                            "eviction behind a capacity test" % (f.root, ctx.bin.span_str(op.call["span"])))
     r.floor("drops from the text store", n, 2)
     return r
+
+
+def r3j_references_decided_by_resolution(ctx):
+    r = Result("R3j", "the reference collector (by role: takes a definition, returns the usages that refer to it) decides by "
+                      "re-resolving each candidate usage and comparing the answer with the definition; it does not reason about "
+                      "visibility itself: it reads no origin flag (is_third_party / is_plugin) of a definition and makes no "
+                      "path-prefix test (`Path::starts_with`). A shortcut of the kind 'a conftest fixture is only visible below "
+                      "its directory' is wrong exactly where go-to-definition is subtle (imports, pytest_plugins, overrides), and "
+                      "references stop being the inverse of go-to-definition there")
+    from .r8 import _definition_fields_read
+    crate = ctx.bin
+    n = 0
+    db = _db(ctx)
+    # by role: reads (does not write) the per-name reverse index of usages and is handed the definition asked about
+    rev = [m for m, (k, v) in db.maps.items() if k == "std::string::String" and "FixtureUsage" in v]
+    readers = {op.fn.root for m in rev for op in db.ops_by_map.get(m, []) if op.mode == "S"} - \
+              {op.fn.root for m in rev for op in db.ops_by_map.get(m, []) if op.mode == "X"}
+    for f in crate.real_fns():
+        if f.id not in readers or f.kind not in ("fn", "method"):
+            continue
+        tys = [f.local_ty(i) for i in range(1, f.argc + 1)]
+        if not any(t.lstrip("&").endswith("::FixtureDefinition") for t in tys):
+            continue
+        n += 1
+        fam = [g for g in crate.real_fns() if g.root == f.id]
+        reads = set()
+        for g in fam:
+            reads |= _definition_fields_read(g)
+        flags = sorted(reads & {"is_third_party", "is_plugin"})
+        prefix = [crate.span_str(c["span"]) for g in fam for _b, c in g.calls()
+                  if re.search(r"path::Path::(starts_with|ends_with|strip_prefix|ancestors)$", c.get("res") or "") and not c["span"][4].startswith("macro:")]
+        key = "R3j|%s|reference collector reasons about visibility" % f.id
+        if flags or prefix:
+            r.violate(key, "%s %s: candidates are dropped without asking the resolver" % (
+                f.id.split("::")[-1], ("reads " + ", ".join(flags)) if flags else ("tests a path prefix at " + prefix[0])))
+        else:
+            r.ok(sample={"collector": f.id.split("::")[-1], "definition fields read": sorted(reads)})
+    r.floor("reference collectors", n, 1)
+    return r
+
+
+def r3k_definition_index_in_step(ctx):
+    r = Result("R3k", "the per-name definition map and its per-file reverse index (PathBuf -> set of names, the one the clean-up of a "
+                      "re-analysis walks) are appended in step: in every function that appends to one, an append to the other lies "
+                      "on every path through it (dominance one way, post-dominance the other). A reverse-index entry skipped "
+                      "'because the name is indexed already' leaves that file's definition out of the next clean-up: it survives "
+                      "the re-analysis of its file, and only when another file defined the name first")
+    db = _db(ctx)
+    crate = ctx.bin
+    fwd = [n for n, (k, v) in db.maps.items() if k == "std::string::String" and re.search(r"Vec<[^>]*FixtureDefinition>", v)]
+    rev = [n for n, (k, v) in db.maps.items() if k == "std::path::PathBuf" and re.search(r"HashSet<std::string::String", v)]
+    # the reverse index of definitions is the set-valued per-file map that the definition clean-up removes from
+    rev = [m for m in rev if any(op.method in ("remove", "remove_if") for op in db.ops_by_map.get(m, []))
+           and any(op.fn.root in {o.fn.root for o in db.ops_by_map.get(fwd[0], []) if o.method in ("get_mut", "remove_if")}
+                   for op in db.ops_by_map.get(m, []) if op.method in ("remove", "remove_if"))] if len(fwd) == 1 else []
+    if len(fwd) != 1 or len(rev) != 1:
+        r.anchor_missing("definition map pair", "forward %s reverse %s" % (fwd, rev))
+        return r
+    fwd, rev = fwd[0], rev[0]
+    r.counts["pair"] = "%s/%s" % (fwd, rev)
+    app_f = [op for op in db.append_ops() if op.ident == db.ident(fwd)]
+    app_r = [op for op in db.append_ops() if op.ident == db.ident(rev)]
+    n = 0
+    for fid in sorted({op.fn.id for op in app_f} | {op.fn.id for op in app_r}):
+        f = crate.fns[fid]
+        a = [op for op in app_f if op.fn.id == fid]
+        b = [op for op in app_r if op.fn.id == fid]
+        n += 1
+        key = "R3k|%s|append-pair" % fid
+        if not a or not b:
+            r.violate(key, "%s appends to `%s` %d time(s) but to `%s` %d time(s)" % (fid, fwd, len(a), rev, len(b)))
+            continue
+        dom = f.dominators()
+        pdom = f.postdominators()
+        good = all(any((x.bb in dom.get(y.bb, set()) and y.bb in pdom.get(x.bb, set())) or
+                       (y.bb in dom.get(x.bb, set()) and x.bb in pdom.get(y.bb, set())) for y in b) for x in a)
+        if good:
+            r.ok(sample={"append_pair": fid.split("::")[-1]})
+        else:
+            r.violate(key, "in %s an append to `%s` is not matched by an append to `%s` on every path" % (fid, fwd, rev))
+    r.floor("functions appending definitions", n, 1)
+    return r
